@@ -290,3 +290,100 @@ func c13Wire(fs *Facts) {
 	}
 	fs.Enum("wireConv", "unknown", where)
 }
+
+// seedMapCheck   yes: inside `if opts.CreateIfNotExist { … }` PatchFields parses the seed into a variable and returns
+//                PatchStatusTypeMismatch when `<var>.Kind != msgpackpatch.KindMap`;  no: the parse result is discarded
+//                (`_, err := msgpackpatch.Parse(seed)`) and the block has no other statement;  unknown otherwise.
+func c13SeedMap(fs *Facts) {
+	const name = "seedMapCheck"
+	const path = "app/core/hydra/swamp/swamp_patch.go"
+	f, err := Load(path)
+	if err != nil {
+		fs.Err("%v", err)
+		fs.Tri(name, Unknown, path)
+		return
+	}
+	fd := f.Func("swamp", "PatchFields")
+	if fd == nil || fd.Body == nil {
+		fs.Tri(name, Unknown, path)
+		return
+	}
+	var block *ast.IfStmt
+	for _, st := range fd.Body.List {
+		if is, ok := st.(*ast.IfStmt); ok && is.Init == nil && is.Else == nil && f.Str(is.Cond) == "opts.CreateIfNotExist" {
+			block = is
+		}
+	}
+	if block == nil {
+		fs.Tri(name, Unknown, path+":"+itoa(f.Line(fd)))
+		return
+	}
+	where := path + ":" + itoa(f.Line(block))
+	typeMismatch := func(b *ast.BlockStmt) bool {
+		if len(b.List) != 1 {
+			return false
+		}
+		r, ok := b.List[0].(*ast.ReturnStmt)
+		if !ok || len(r.Results) != 2 || f.Str(r.Results[1]) != "nil" {
+			return false
+		}
+		cl, ok := r.Results[0].(*ast.CompositeLit)
+		if !ok || f.Str(cl.Type) != "PatchFieldsResult" {
+			return false
+		}
+		for _, e := range cl.Elts {
+			if kv, ok := e.(*ast.KeyValueExpr); ok && f.Str(kv.Key) == "Status" {
+				return f.Str(kv.Value) == "PatchStatusTypeMismatch"
+			}
+		}
+		return false
+	}
+	// first statement: `if X, err := msgpackpatch.Parse(seed); err != nil { return TypeMismatch }`  or the two-statement form
+	var parsed string
+	rest := block.Body.List
+	if len(rest) == 0 {
+		fs.Tri(name, Unknown, where)
+		return
+	}
+	readParse := func(st ast.Stmt) (string, bool) {
+		as, ok := st.(*ast.AssignStmt)
+		if !ok || as.Tok != token.DEFINE || len(as.Lhs) != 2 || len(as.Rhs) != 1 || f.Str(as.Rhs[0]) != "msgpackpatch.Parse(seed)" ||
+			f.Str(as.Lhs[1]) != "err" {
+			return "", false
+		}
+		return f.Str(as.Lhs[0]), true
+	}
+	if is, ok := rest[0].(*ast.IfStmt); ok && is.Init != nil && is.Else == nil && f.Str(is.Cond) == "err != nil" && typeMismatch(is.Body) {
+		v, ok := readParse(is.Init)
+		if !ok {
+			fs.Tri(name, Unknown, where)
+			return
+		}
+		parsed, rest = v, rest[1:]
+	} else if v, ok := readParse(rest[0]); ok && len(rest) >= 2 {
+		is, ok := rest[1].(*ast.IfStmt)
+		if !ok || is.Init != nil || is.Else != nil || f.Str(is.Cond) != "err != nil" || !typeMismatch(is.Body) {
+			fs.Tri(name, Unknown, where)
+			return
+		}
+		parsed, rest = v, rest[2:]
+	} else {
+		fs.Tri(name, Unknown, where)
+		return
+	}
+	switch {
+	case len(rest) == 0:
+		fs.Tri(name, No, where)
+	case len(rest) == 1 && parsed != "_":
+		is, ok := rest[0].(*ast.IfStmt)
+		if ok && is.Init == nil && is.Else == nil && typeMismatch(is.Body) {
+			if b, ok := is.Cond.(*ast.BinaryExpr); ok && b.Op == token.NEQ && f.Str(b.X) == parsed+".Kind" && f.Str(b.Y) == "msgpackpatch.KindMap" {
+				fs.Tri(name, Yes, path+":"+itoa(f.Line(is)))
+				return
+			}
+		}
+		fs.Tri(name, Unknown, where)
+	default:
+		fs.Tri(name, Unknown, where)
+	}
+}
